@@ -5,6 +5,9 @@ package c10
 import (
 	"encoding/json"
 	"fmt"
+	"math"
+	"regexp"
+	"strconv"
 	"os"
 	"path/filepath"
 	"sort"
@@ -202,6 +205,78 @@ func verdict(in *Input) (ok bool, msg string, rep sandbox.Reply) {
 		}
 	}
 	return true, "", rep
+}
+
+// ampVerdict judges an amplifier input of size parameter n.  Time that grows
+// like a small polynomial is allowed by the property, so the size is doubled
+// from a small start and a larger instance is only run while the measured
+// growth predicts an answer within the budget.  A violation is a fatal
+// outcome at any size, or growth steeper than n^3.5 between two consecutive
+// sizes (confirmed by a second measurement), or a missing answer at a size
+// that cubic growth from the previous size would have answered in time.
+func ampVerdict(in *Input, n int) (bool, string, sandbox.Reply) {
+	fam := strings.TrimPrefix(in.Kind, "amp:")
+	var f func(int) string
+	for _, a := range amplifiers {
+		if a.name == fam {
+			f = a.f
+		}
+	}
+	if f == nil {
+		return verdict(in)
+	}
+	size := n >> 6
+	if size < 16 {
+		size = 16
+	}
+	if size > n {
+		size = n
+	}
+	prevT, prevSize := 0.0, 0
+	var last sandbox.Reply
+	for {
+		cur := *in
+		cur.Src = f(size)
+		ok, msg, r := verdict(&cur)
+		if !ok {
+			*in = cur
+			if prevSize > 0 && strings.HasPrefix(msg, "no answer") {
+				msg = fmt.Sprintf("%s; n=%d answered in %.0f ms, so growth to n=%d is steeper than n^3.5", msg, prevSize, prevT, size)
+			}
+			return false, msg, r
+		}
+		last = r
+		t := r.Millis
+		if prevT > 50 && t > 1500 {
+			exp := math.Log2(t/prevT) / math.Log2(float64(size)/float64(prevSize))
+			if exp > 3.5 {
+				p := *in
+				p.Src = f(prevSize)
+				_, _, rp := verdict(&p)
+				_, _, rc := verdict(&cur)
+				if rp.Millis > 50 {
+					exp2 := math.Log2(rc.Millis/rp.Millis) / math.Log2(float64(size)/float64(prevSize))
+					if exp2 > 3.5 {
+						*in = cur
+						return false, fmt.Sprintf("super-cubic time growth: n=%d takes %.0f ms, n=%d takes %.0f ms (exponent %.1f)", prevSize, rp.Millis, size, rc.Millis, exp2), rc
+					}
+				}
+			}
+		}
+		if size >= n {
+			return true, "", last
+		}
+		next := size * 2
+		if next > n {
+			next = n
+		}
+		ratio := float64(next) / float64(size)
+		if math.Max(t, 1)*math.Pow(ratio, 3.5) > 20000 {
+			ev.Class("amp-polynomial-slow:" + fam)
+			return true, "", last
+		}
+		prevT, prevSize, size = t, size, next
+	}
 }
 
 func trimStack(s string) string {
@@ -524,7 +599,14 @@ func TestPropInputs(t *testing.T) {
 			ev.Class("skipped-known-signature")
 			return
 		}
-		ok, msg, rep := verdict(in)
+		var ok bool
+		var msg string
+		var rep sandbox.Reply
+		if ampN >= 64 {
+			ok, msg, rep = ampVerdict(in, ampN)
+		} else {
+			ok, msg, rep = verdict(in)
+		}
 		ev.Eval(ev.HashS(in.Src, in.API, in.Opts), rep.Decls >= 1 || ampN >= 64)
 		ev.Class("family:" + in.Kind)
 		ev.Class("api:" + in.API)
@@ -579,4 +661,27 @@ func maxNesting(src string, open, close byte) int {
 	return m
 }
 
-var knownSignatures = []signature{}
+var reArrayLen = regexp.MustCompile(`,\s*(\d+)\s*[iu]?\s*>`)
+
+// arrayProduct multiplies the fixed array lengths written in the source
+// (capped): a rough measure of how many elements zero-value expansion of the
+// declared types can produce.
+func arrayProduct(src string) float64 {
+	p := 1.0
+	for _, m := range reArrayLen.FindAllStringSubmatch(src, -1) {
+		n, err := strconv.ParseFloat(m[1], 64)
+		if err != nil || n < 1 {
+			continue
+		}
+		p *= n
+		if p > 1e18 {
+			return p
+		}
+	}
+	return p
+}
+
+var knownSignatures = []signature{
+	// C10-1: per-element expansion of zero values / constructors of (nested) arrays
+	{"c10.array-expansion", func(src string) bool { return arrayProduct(src) > 50000 }},
+}
